@@ -136,7 +136,7 @@ REGISTRY = {
         "(both compilers, selection / adaptive on-off, hall-of-fame sizes): same clauses with every stored circuit "
         "re-scored by a fresh compiler, HofFromKnown, ResultIsBest, LogsMonotone, ReproducibleInProcess and "
         "ReproducibleAcrossProcesses (fresh interpreters with other hash seeds); update_hof driven directly with synthetic "
-        "populations incl. near-tied scores, judged against the insertion rule (HofUpdateRule).",
+        "populations incl. near-tied scores, judged per update (HofSorted, HofFromKnown, BestKept; agreement with the insertion rule of MC_Evo as information).",
         "", "DESIGN.md 6/C19"),
     "C17": (
         "exact values of fidelity / trace distance / reduced states computed by the spec on stabilizer mixtures "
